@@ -3,6 +3,8 @@ package checks
 import (
 	"encoding/json"
 	"fmt"
+	"strings"
+	"sync"
 	"testing"
 	"time"
 
@@ -15,12 +17,28 @@ import (
 	"verif/harness/sm"
 )
 
-const ruleC11 = "documents with 1-5 fields whose values nest to depth <= 4 and include int64/uint64 extremes, -0.0, +-MaxFloat64, denormals, empty strings/maps/slices, non-UTF-8 strings and times (1970-2200, 1678-2262, and far away: year 1, 1066, 1600, 2300, 9999) with odd zone offsets and nanoseconds inside arrays and inside objects inside arrays; written through Insert, Save, ReplaceById, UpdateById and Update on bbolt (on disk) and badger, read back with FindById and FindAll, then again after Close + Open (on-disk backend); also the pure document.Encode -> document.Decode round trip. Oracle: type-strict deep equality with the written document (int64 != uint64 != float64, floats bit-exact, times equal in instant and zone offset, nil slice = empty slice). An evaluation is one document round trip; non-trivial when the document nests >= 2 levels or contains a time, a uint64, an integer beyond 2^53 or a non-UTF-8 string; distinct = distinct documents."
+const ruleC11 = "documents with 1-5 fields whose values nest to depth <= 4 and include int64/uint64 extremes, -0.0, +-MaxFloat64, denormals, empty strings/maps/slices, non-UTF-8 strings and times (1970-2200, 1678-2262, and far away: year 1, 1066, 1600, 2300, 9999) with odd zone offsets and nanoseconds inside arrays and inside objects inside arrays; written through Insert, Save, ReplaceById, UpdateById and Update on bbolt (on disk) and badger, read back with FindById and FindAll, then again after Close + Open (on-disk backend); also the pure document.Encode -> document.Decode round trip. Oracle: type-strict deep equality with the written document (int64 != uint64 != float64, floats bit-exact, times equal in instant and zone offset, nil slice = empty slice). An evaluation is one document round trip; non-trivial when the document nests >= 2 levels or contains a time, a uint64, an integer beyond 2^53 or a non-UTF-8 string; distinct = distinct documents. A second part has 2-8 goroutines read the same documents by id and by query at the same time; every read must return exactly what was written."
 
 func c11Session(backend string) (*sm.Session, error) { return sm.NewSession("C11", "c11", backend) }
 
 func init() {
 	registerSM("C11", "c11", c11Session)
+	replayers["c11readers"] = func(raw json.RawMessage) *sm.Fail {
+		var c struct {
+			Backend string   `json:"backend"`
+			Docs    []cs.Doc `json:"docs"`
+			Readers int      `json:"readers"`
+		}
+		if err := json.Unmarshal(raw, &c); err != nil {
+			return &sm.Fail{Property: "C11", Clause: "replay", Detail: err.Error()}
+		}
+		for i := 0; i < 20; i++ {
+			if f := concurrentReaders(c.Backend, c.Docs, c.Readers); f != nil {
+				return f
+			}
+		}
+		return nil
+	}
 	replayers["c11enc"] = func(raw json.RawMessage) *sm.Fail {
 		var d cs.Doc
 		if err := json.Unmarshal(raw, &d); err != nil {
@@ -142,7 +160,78 @@ func validUTF8(s string) bool {
 	return true
 }
 
+// concurrentReaders: several goroutines read the same documents by id and by query at the
+// same time; every read must return exactly what was written.
+func concurrentReaders(backend string, docs []cs.Doc, readers int) *sm.Fail {
+	s, err := c11Session(backend)
+	if err != nil {
+		return &sm.Fail{Property: "C11", Clause: "harness", Detail: err.Error()}
+	}
+	defer s.Close()
+	for _, op := range []cs.Op{{Kind: "createcoll", Coll: "A"}, {Kind: "insert", Coll: "A", Docs: docs}} {
+		if f := s.Do(op); f != nil {
+			return f
+		}
+	}
+	fails := make([]*sm.Fail, readers)
+	var wg sync.WaitGroup
+	for g := 0; g < readers; g++ {
+		wg.Add(1)
+		go func(g int) {
+			defer wg.Done()
+			for round := 0; round < 6 && fails[g] == nil; round++ {
+				var out *cs.Outcome
+				var op cs.Op
+				if (g+round)%2 == 0 {
+					op = cs.Op{Kind: "find", Q: &cs.Query{Coll: "A"}}
+				} else {
+					op = cs.Op{Kind: "findbyid", Coll: "A", Id: &cs.IdRef{Lit: docs[(g+round)%len(docs)]["_id"].(string)}}
+				}
+				out = run.Exec(s.H.DB, &op)
+				if strings.HasPrefix(out.Err, "panic") || out.Err == "hang" {
+					fails[g] = &sm.Fail{Property: "C20", Clause: "no-panic-no-hang", Detail: "concurrent read: " + out.Err}
+					return
+				}
+				m := s.M.Clone()
+				if msg := m.Step(&op, out); msg != "" {
+					fails[g] = &sm.Fail{Property: "C11", Clause: "concurrent-read", Detail: fmt.Sprintf("a read issued while %d other readers were active returned something else than what was written: %s", readers-1, msg)}
+				}
+			}
+		}(g)
+	}
+	wg.Wait()
+	for _, f := range fails {
+		if f != nil {
+			return f
+		}
+	}
+	return nil
+}
+
 func TestC11(t *testing.T) {
+	t.Run("roundtrip", testC11RoundTrip)
+	t.Run("concurrent-readers", func(t *testing.T) {
+		col := collector("C11", ruleC11)
+		cfg := gen.ValCfg{NonUTF8: true, MaxDepth: 3, TimeWide: true}
+		check(t, "C11", cases(120, 3000), 0, func(rt *rapid.T) {
+			backend := rapid.SampledFrom([]string{run.Bbolt, run.BadgerMem}).Draw(rt, "backend")
+			n := rapid.IntRange(2, 12).Draw(rt, "ndocs")
+			docs := make([]cs.Doc, n)
+			for i := range docs {
+				docs[i] = cs.Doc{"_id": gen.Id(i), "v": gen.Value(cfg, 3).Draw(rt, "v"), "w": gen.Array(cfg, 2).Draw(rt, "w")}
+			}
+			readers := rapid.IntRange(2, 8).Draw(rt, "readers")
+			if f := concurrentReaders(backend, docs, readers); f != nil {
+				violate(rt, "C11", "c11readers", map[string]interface{}{"backend": backend, "docs": docs, "readers": readers}, f)
+			}
+			col.Case(true, hashOf(docs, readers, backend), func() interface{} {
+				return map[string]interface{}{"mode": "concurrent readers", "backend": backend, "docs": n, "readers": readers}
+			}, "concurrent-readers", "backend:"+backend)
+		})
+	})
+}
+
+func testC11RoundTrip(t *testing.T) {
 	col := collector("C11", ruleC11)
 	backends := []string{run.Bbolt, run.Bbolt, run.BadgerMem}
 	mixed := gen.ValCfg{NonUTF8: true, LongStr: true, MaxDepth: 4, TimeWide: true, TimeFar: true}
